@@ -93,46 +93,51 @@ Definition em_var_total (Y sd : list Q) : Q := em_scale2 Y sd * pos_recipr (qsum
 
 (* -------------------------------------------------------------------------
    lib/fff/fff_onesample_stat.c: Gaussian MFX (student_mfx, mean_gauss_mfx)
-   _fff_onesample_gmfx_EM(&m, &v, x, var, niter, constraint):
+   _fff_onesample_gmfx_EM(&m, &v, x, var, niter, constraint), as repaired by 4a6ea55:
 
      if (!constraint) v1 = fff_vector_ssd(x, &m1, 0)/n;          (m1 = mean)
-     else { m1 = 0.0; v1 = fff_vector_ssd(x, &m1, 1)/n; }        (fixed offset m1)
+     else { m1 = *m; v1 = fff_vector_ssd(x, &m1, 1)/n; }         (fixed offset m1 = value passed in)
      while (iter < niter) { m0 = m1; v0 = v1; if (!constraint) m1 = 0; v1 = 0;
        for i: aux = 1/(var_i + v0); mi = (v0 x_i + var_i m0) aux; vi = aux var_i v0;
-              if (!constraint) m1 += mi;  v1 += vi + mi^2;
-       if (!constraint) m1 /= n;  v1 /= n;  v1 -= m1^2; }
+              if (!constraint) { m1 += mi; v1 += vi + mi^2; } else v1 += vi + (mi - m0)^2;
+       v1 /= n;  if (!constraint) { m1 /= n; v1 -= m1^2; } }
      *m = m1; *v = v1;
 
-   NOTE (modelled as it is): in constrained mode the mean is set to 0.0, not
-   to the value passed in *m (the caller passes &base), and *m is overwritten
-   with it.  x and var are the logical element sequences; the strides of the
-   two fff_vectors are a memory-layout matter checked by the harness
-   (layout/* oracles), not part of this model. *)
+   `m_in` is the value the caller stores in *m before the call (the baseline in
+   _fff_onesample_LR_gmfx; ignored in unconstrained mode).  x and var are the
+   logical element sequences; the strides of the two fff_vectors are a
+   memory-layout matter checked by the harness (layout/* oracles). *)
 Definition ssd_fixed (x : list Q) (m : Q) : Q :=
   let mean := qsum x / qlen x in
   qsum (map (fun v => v * v) x) + qlen x * ((m - mean) * (m - mean) - mean * mean).
 
 Definition gm_mi (m0 v0 xi si : Q) : Q := (v0 * xi + si * m0) * (1 / (si + v0)).
 Definition gm_vi (v0 si : Q) : Q := (1 / (si + v0)) * si * v0.
+(* constrained accumulation term: vi + (mi - m0)^2 *)
+Definition gm_cterm (m0 v0 xi si : Q) : Q :=
+  gm_vi v0 si + (gm_mi m0 v0 xi si - m0) * (gm_mi m0 v0 xi si - m0).
 
-Definition gmfx_init (constraint : bool) (x : list Q) : Q * Q :=
-  if constraint then (0, Qred (ssd_fixed x 0 / qlen x))
+Definition gmfx_init (constraint : bool) (m_in : Q) (x : list Q) : Q * Q :=
+  if constraint then (m_in, Qred (ssd_fixed x m_in / qlen x))
   else (Qred (qsum x / qlen x), Qred (vec_ssd x / qlen x)).
 
 Definition gmfx_step (constraint : bool) (x var : list Q) (st : Q * Q) : Q * Q :=
   let '(m0, v0) := st in
-  let mi := map2 (gm_mi m0 v0) x var in
-  let vi := map (gm_vi v0) var in
-  let m1 := if constraint then m0 else Qred (qsum mi / qlen x) in
-  (m1, Qred (qsum (map2 (fun a b => b + a * a) mi vi) / qlen x - m1 * m1)).
+  if constraint then (m0, Qred (qsum (map2 (gm_cterm m0 v0) x var) / qlen x))
+  else
+    let mi := map2 (gm_mi m0 v0) x var in
+    let vi := map (gm_vi v0) var in
+    let m1 := Qred (qsum mi / qlen x) in
+    (m1, Qred (qsum (map2 (fun a b => b + a * a) mi vi) / qlen x - m1 * m1)).
 
 Fixpoint gmfx_iter (n : nat) (constraint : bool) (x var : list Q) (st : Q * Q) : Q * Q :=
   match n with O => st | S k => gmfx_iter k constraint x var (gmfx_step constraint x var st) end.
 
-Definition gmfx_em (niter : nat) (constraint : bool) (x var : list Q) : Q * Q :=
-  gmfx_iter niter constraint x var (gmfx_init constraint x).
+Definition gmfx_em (niter : nat) (constraint : bool) (m_in : Q) (x var : list Q) : Q * Q :=
+  gmfx_iter niter constraint x var (gmfx_init constraint m_in x).
 
 (* mean_gauss_mfx + base *)
-Definition gmfx_mean (niter : nat) (x var : list Q) : Q := fst (gmfx_em niter false x var).
-(* the mean under H0 as _fff_onesample_LR_gmfx obtains it (whatever `base` is) *)
-Definition student_mfx_null_mean (niter : nat) (x var : list Q) : Q := fst (gmfx_em niter true x var).
+Definition gmfx_mean (niter : nat) (x var : list Q) : Q := fst (gmfx_em niter false 0 x var).
+(* the mean under H0 as _fff_onesample_LR_gmfx obtains it: _fff_onesample_gmfx_EM(&base, &v0, ..., 1) *)
+Definition student_mfx_null_mean (niter : nat) (base : Q) (x var : list Q) : Q := fst (gmfx_em niter true base x var).
+Definition student_mfx_null_var (niter : nat) (base : Q) (x var : list Q) : Q := snd (gmfx_em niter true base x var).
